@@ -145,7 +145,7 @@ impl Node {
             False => "0",
             PkK(_) => "pk_k",
             PkH(_) => "pk_h",
-            RawPkH(_) => "expr_raw_pk_h",
+            RawPkH(_) => "expr_raw_pkh",
             After(_) => "after",
             Older(_) => "older",
             Sha256(_) => "sha256",
@@ -193,7 +193,7 @@ fn print_into(n: &Node, sugar: bool, out: &mut String, after_wrapper: bool) {
         Alt(x) => Some(('a', x)),
         Swap(x) => Some(('s', x)),
         Check(x) => {
-            if sugar && matches!(**x, PkK(_) | PkH(_) | RawPkH(_)) {
+            if sugar && matches!(**x, PkK(_) | PkH(_)) {
                 None
             } else {
                 Some(('c', x))
@@ -240,7 +240,7 @@ fn print_into(n: &Node, sugar: bool, out: &mut String, after_wrapper: bool) {
             out.push(')');
         }
         RawPkH(h) => {
-            out.push_str("expr_raw_pk_h(");
+            out.push_str("expr_raw_pkh(");
             out.push_str(h);
             out.push(')');
         }
@@ -252,11 +252,6 @@ fn print_into(n: &Node, sugar: bool, out: &mut String, after_wrapper: bool) {
             }
             PkH(k) => {
                 out.push_str("pkh(");
-                out.push_str(k);
-                out.push(')');
-            }
-            RawPkH(k) => {
-                out.push_str("expr_raw_pkh(");
                 out.push_str(k);
                 out.push(')');
             }
@@ -411,8 +406,7 @@ pub fn parse(s: &str) -> Result<Node, String> {
         "pk_h" => PkH(one(&args)?),
         "pk" => Check(b(PkK(one(&args)?))),
         "pkh" => Check(b(PkH(one(&args)?))),
-        "expr_raw_pk_h" => RawPkH(one(&args)?),
-        "expr_raw_pkh" => Check(b(RawPkH(one(&args)?))),
+        "expr_raw_pkh" => RawPkH(one(&args)?),
         "after" => After(num(&one(&args)?)?),
         "older" => Older(num(&one(&args)?)?),
         "sha256" => Sha256(one(&args)?),
